@@ -462,10 +462,16 @@ class Server(_Server_):
             util.debug('%r callable returned object with id %r', typeid, ident)
 
             self.id_to_obj[ident] = (obj, set(exposed), method_to_typeid)
-            if ident not in self.id_to_refcount:
-                self.id_to_refcount[ident] = 0
+            # Hold one reference on behalf of the proxy that is about to be made; it is given back
+            # below, once the proxy holds its own. `obj` may be hosted already (see `managed`),
+            # and the mutex is released before the proxy increments: meanwhile the last other
+            # reference may go, and the object must not be disposed of under the new proxy's feet.
+            self.id_to_refcount[ident] = self.id_to_refcount.get(ident, 0) + 1
 
-        return self._make_proxy(typeid, proxytype, ident, tuple(exposed))
+        try:
+            return self._make_proxy(typeid, proxytype, ident, tuple(exposed))
+        finally:
+            self.decref(c, ident)
 
     def incref(self, c, ident):
         with self.mutex:
